@@ -397,6 +397,25 @@ def block_mask_last(block_lists):
         yield True
 
 
+def _header_row(lines, firstrow, header, skip_blank_lines):
+    """Position of the line that pandas uses as the header
+
+    This is line number ``header`` at or after ``firstrow``. Like pandas, do not
+    count blank lines (unless ``skip_blank_lines=False``): the blocks that do
+    not start a file get this line prepended, and a blank one would make them
+    take their first row for the header.
+    """
+    row = firstrow
+    for remaining in range(header, -1, -1):
+        while (
+            skip_blank_lines and row < len(lines) and not lines[row].strip(b" \t\r")
+        ):
+            row += 1
+        if remaining:
+            row += 1
+    return row if row < len(lines) else firstrow + header
+
+
 def auto_blocksize(total_memory, cpu_count):
     memory_factor = 10
     blocksize = int(total_memory // cpu_count / memory_factor)
@@ -555,7 +574,14 @@ def read_pandas(
     header = kwargs.get("header", "infer" if names is None else None)
     kwargs["header"] = header
     need = 1 if header is None else 2
-    if isinstance(header, int):
+    if header is not None and not kwargs.get("comment"):
+        firstrow = _header_row(
+            b_sample.split(b_lineterminator),
+            firstrow,
+            header if isinstance(header, int) else 0,
+            kwargs.get("skip_blank_lines", True),
+        )
+    elif isinstance(header, int):
         firstrow += header
     if kwargs.get("comment"):
         # if comment is provided, step through lines of b_sample and strip out comments
